@@ -623,4 +623,4 @@ def execute(case):
 
 
 PARTS = [Part("machine", None, execute, quick=800, thorough=2500, machine=make_machine, steps=30,
-              shrink_quick=False)]
+              shrink_quick=False, quick_factor=2)]
